@@ -14,4 +14,4 @@ Separate Extraction
   nz sdis stsc_call_ok rows_ok raw_ok ctts_call_ok nchunks
   fstate query answer run run_all eval
   stts_get_time_code stts_get_time_code_pinned S_time_code ids_ok
-  S_decode_time chunk_counts S_entries nsamples is_u32.
+  S_decode_time chunk_counts S_entries nsamples is_u32 durs.
